@@ -726,11 +726,15 @@ def run(ctx):
     ctx.rule = ("histories of 1..%d Archive.add calls (random grid vectors, perturbed / duplicated / re-offered earlier solutions, coordinatewise "
                 "min / max of earlier solutions, shuffled anti-chains with a sweeping newcomer and its duplicate; feasible / infeasible / integer "
                 "markers; costs_signed set directly or via calc_signed_costs), for ParetoDominance and EpsilonDominance (epsilons %r), with "
-                "occasional Archive.remove and a final Archive.truncate (sometimes followed by more additions); a history is non-trivial when at "
+                "occasional Archive.remove and a final Archive.truncate (sometimes followed by more additions); in 35 %% of the histories the "
+                "design vectors of the individuals come from 1-3 base points (exactly equal, within / at / just outside the 1e-10 of "
+                "Individual.__eq__, Individual.copy() of an earlier individual) independently of the costs, with more remove operations, "
+                "otherwise the vectors are pairwise distinct; a history is non-trivial when at "
                 "least one addition evicted a member or was rejected by a non-empty archive, or a truncate dropped a member; distinct = distinct "
-                "(comparator, epsilons, cost vectors, operation list, features)") % (nmax, EPS_CHOICES)
+                "(comparator, epsilons, cost vectors, operation list, features, design vectors)") % (nmax, EPS_CHOICES)
     ctx.extra.update({"statistics": st, "history_length_histogram": {str(k): v for k, v in sorted(len_hist.items())},
-                      "grids": {n: g for n, g, _ in GRIDS}, "feature_grid": [str(x) for x in FGRID]})
+                      "grids": {n: g for n, g, _ in GRIDS}, "feature_grid": [str(x) for x in FGRID],
+                      "design_vector_grid": VGRID, "design_vector_offsets": VDELTA})
 
 
 def replay(ctx, data):
@@ -759,7 +763,11 @@ LEVEL_TEXT = ("Machine-checked Coq theorems over a line-by-line model of Archive
               "independence; truncate keeps the largest feature values. Proved once for any comparator satisfying the laws of C01 and "
               "instantiated for the Pareto comparator and (under C01's separation hypothesis over the offered vectors) the epsilon comparator. "
               "The model is tied to archive.py on every run by evaluating it in Coq on generated histories for both comparators and comparing "
-              "contents and return values after every operation.")
+              "contents and return values after every operation; a third of the histories offer several individuals with the same design vector "
+              "(exactly or within the tolerance of Individual.__eq__, copies, the same object twice) and differing or coinciding costs, so that "
+              "any dependence of add / truncate on Individual.__eq__ / __hash__ instead of object identity and costs shows up.")
 LEVEL_NOTE = ("Trusted: Coq kernel + vm_compute; FloatAxioms.ltb_spec/eqb_spec; the hand-written model and the Python harness; math.pow results are "
-              "an oracle (per-individual tapes); sorted() modelled as a stable sort. Epsilon comparator: theorems need the separation hypothesis, "
+              "an oracle (per-individual tapes); sorted() modelled as a stable sort; Individual.__eq__ (only Archive.remove uses it, outside the property "
+              "text) modelled by C20's vector equality. The theorems speak about cost vectors and object identities and hold whatever the design "
+              "vectors are. Epsilon comparator: theorems need the separation hypothesis, "
               "canonical markers and a tie-consistent oracle. Correspondence is sampled (generated + corpus histories), the theorems are unbounded.")
